@@ -187,7 +187,7 @@ pub fn check_run(prop: &str, root: &Root, depth: u8, k: Option<u64>, r: &SearchR
 
 /// S_k (without a trailing fallback send) must be a prefix of S_inf; a fallback must be the first
 /// send of S_inf.
-fn check_prefix(root: &Root, depth: u8, k: u64, sk: &[NEv], sinf: &[NEv], acc: &mut Acc) {
+pub fn check_prefix(root: &Root, depth: u8, k: u64, sk: &[NEv], sinf: &[NEv], acc: &mut Acc) {
     let case = root_case("C07", root, depth, Some(k));
     let tag = format!("{}|D{}|k{}", root.hist.end.to_fen(), depth, k);
     // Iteration-start markers are hook bookkeeping, not reported improvements: an iteration may
@@ -223,7 +223,7 @@ fn check_prefix(root: &Root, depth: u8, k: u64, sk: &[NEv], sinf: &[NEv], acc: &
     }
 }
 
-fn choose_ks(q: u64, rinf: &SearchRun, rng: &mut Rng, all_below: u64, random_n: u64) -> (Vec<u64>, bool) {
+pub fn choose_ks(q: u64, rinf: &SearchRun, rng: &mut Rng, all_below: u64, random_n: u64) -> (Vec<u64>, bool) {
     if q <= all_below {
         return ((0..=q).collect(), true);
     }
@@ -355,17 +355,29 @@ pub fn run_c12(tier: Tier, seed: u64) -> i32 {
     let roots = search_roots(seed, n_roots, &h, false);
     let budget = tier.pick(3_000_000u64, 30_000_000);
     let results = par::par_map(roots.len(), |j| {
-        let root = &roots[j];
         let mut acc = Acc::new();
+        c12_check_root(&roots[j], &h, budget, j < 2, &mut acc);
+        acc
+    });
+    for a in results {
+        run.acc.merge(a, &[]);
+    }
+    run.floor_distinct = 100;
+    run.finish()
+}
+
+
+/// C12 for one root: depths 1..3 of the real search against the reference.
+pub fn c12_check_root(root: &Root, h: &ZobristHasher, budget: u64, sample: bool, acc: &mut Acc) {
         // self-test of the reference on small trees (depth 1-2 of sparse positions)
         let pieces = root.hist.end.sq.iter().filter(|x| x.is_some()).count();
         if pieces <= 8 {
-            let mut rs = RefSearch::new(&h, 5_000_000);
+            let mut rs = RefSearch::new(h, 5_000_000);
             let mut t = root.table.clone();
             let ab = par::catch(|| rs.root(&root.board, 2, &root.table).0);
-            let mut rs2 = RefSearch::new(&h, u64::MAX);
+            let mut rs2 = RefSearch::new(h, u64::MAX);
             let mm = par::catch(|| {
-                let moves = crate::move_generation::generate_moves(&root.board, crate::move_generation::MoveGenerationMode::AllMoves, &h);
+                let moves = crate::move_generation::generate_moves(&root.board, crate::move_generation::MoveGenerationMode::AllMoves, h);
                 moves.iter().map(|m| -rs2.minimax(m, 1, 1, &mut t)).max().unwrap_or(0)
             });
             acc.count("reference_selftests", 1);
@@ -378,7 +390,7 @@ pub fn run_c12(tier: Tier, seed: u64) -> i32 {
         let r = run_search(&root.board, &root.table, None, 3);
         if let Some(p) = &r.panic {
             acc.violation(format!("C12|panic|{}", root.hist.command()), format!("search to depth 3 panicked on {}: {}", root.hist.end.to_fen(), p), root_case("C12", root, 3, None));
-            return acc;
+            return;
         }
         // last line and last send of each iteration
         let mut per_depth: HashMap<u8, (Option<Info>, Option<Mv>)> = HashMap::new();
@@ -398,7 +410,7 @@ pub fn run_c12(tier: Tier, seed: u64) -> i32 {
             }
         }
         for d in 1..=3u8 {
-            let mut rs = RefSearch::new(&h, budget);
+            let mut rs = RefSearch::new(h, budget);
             let res = par::catch(|| rs.root(&root.board, d, &root.table));
             let (want, per_move) = match res {
                 Ok(x) => x,
@@ -439,20 +451,13 @@ pub fn run_c12(tier: Tier, seed: u64) -> i32 {
                             None => acc.violation(format!("C12|move-missing|{}|d{}", root.hist.command(), d), format!("{}: selected move {} is not a root move", root.hist.end.to_fen(), bm), case.clone()),
                         }
                     }
-                    if j < 2 && d == 3 {
+                    if sample && d == 3 {
                         acc.sample(json!({"position_command": truncate(&root.hist.command(), 200), "depth": d, "reported": format!("{:?}", info.score), "reference_value": want, "selected": best.map(|m| m.to_string())}));
                     }
                 }
                 _ => acc.violation(format!("C12|no-line|{}|d{}", root.hist.command(), d), format!("{}: no info line for completed depth {}", root.hist.end.to_fen(), d), case),
             }
         }
-        acc
-    });
-    for a in results {
-        run.acc.merge(a, &[]);
-    }
-    run.floor_distinct = 100;
-    run.finish()
 }
 
 // ------------------------------------------------------------------------------------------------
